@@ -60,13 +60,13 @@ var Variants = map[string][]Node{
 		// durations that do not divide the distance between Go's zero time and the Unix epoch:
 		// "on the grid" is t.Truncate(d) == t, i.e. relative to Go's zero time
 		{K: "sample", D: 7},
-		{K: "sample", D: 11},
-		{K: "sample", D: 13},
+		{K: "sample", D: 11, Extra: true},
+		{K: "sample", D: 13, Extra: true},
 	},
 	"derivative": {
 		{K: "derivative", Fields: []string{"v"}, As: []string{"v"}, Unit: 1},
 		{K: "derivative", Fields: []string{"v"}, As: []string{"d"}, Unit: 2, NonNeg: true},
-		{K: "derivative", Fields: []string{"v"}, As: []string{"v"}, Unit: 7},
+		{K: "derivative", Fields: []string{"v"}, As: []string{"v"}, Unit: 7, Extra: true},
 	},
 	"changeDetect": {
 		{K: "changeDetect", Fields: []string{"v"}},
@@ -85,12 +85,12 @@ var Variants = map[string][]Node{
 		{K: "flatten", On: []string{"h", "p"}, Delim: "_"},
 		{K: "flatten", On: []string{"p"}, Delim: ".", D: 2, Drop: true},
 		{K: "flatten", On: []string{"p"}, Delim: "-", D: 2},
-		{K: "flatten", On: []string{"p"}, Delim: ".", D: 7},
+		{K: "flatten", On: []string{"p"}, Delim: ".", D: 7, Extra: true},
 	},
 	"combine": {
 		{K: "combine", Lams: []string{"pEqX", "true"}, As: []string{"l", "r"}, Delim: ".", N: 10},
 		{K: "combine", Lams: []string{"true", "true"}, As: []string{"l", "r"}, Delim: ".", N: 2, D: 2},
-		{K: "combine", Lams: []string{"true", "pEqX"}, As: []string{"l", "r"}, Delim: ".", N: 10, D: 13},
+		{K: "combine", Lams: []string{"true", "pEqX"}, As: []string{"l", "r"}, Delim: ".", N: 10, D: 13, Extra: true},
 	},
 	"groupBy": {
 		{K: "groupBy", On: []string{"p"}},
@@ -101,6 +101,17 @@ var Variants = map[string][]Node{
 		// two explicit dimensions: the node's sorted tag-name slice is shared by every point it emits
 		{K: "groupBy", On: []string{"p", "h"}},
 	},
+}
+
+// CoreVariants: AllVariants without the Extra ones.
+func CoreVariants() []Node {
+	var out []Node
+	for _, v := range AllVariants() {
+		if !v.Extra {
+			out = append(out, v)
+		}
+	}
+	return out
 }
 
 // AllVariants in deterministic order.
@@ -197,17 +208,18 @@ var Seqs = map[string][]Pt{
 		ptt("m", T{"p": "x", "q": "u"}, 2, F{"v": iv(1)}),
 		ptt("m", T{"h": "b", "p": "y"}, 2, F{"v": fv(0.5)}),
 	},
-	// times on and off the 7s/11s/13s grids of Go's zero time (7s: 0, 11s: 0, 13s: 5) and of the
-	// Unix epoch (7s: 4, 11s: 2, 13s: 9); per group three equidistant instants, distance 4
+	// times on and off the 13s grids of Go's zero time (k = 5) and of the Unix epoch (k = 9); the
+	// 7s grids (0 / 4) and 11s grids (0 / 2) are hit by the other sequences.  One time set
+	// {1,5,9} for all groups: regrouping must not create other elapsed times than 4 and 8.
 	"grid": {
-		pt("m", "a", "x", 0, F{"v": iv(2)}),
+		pt("m", "a", "x", 1, F{"v": iv(2)}),
 		pt("m", "b", "x", 1, F{"v": fv(1.5)}),
-		pt("m", "a", "y", 4, F{"v": iv(4), "w": iv(1)}),
+		pt("m", "a", "y", 5, F{"v": iv(4), "w": iv(1)}),
 		pt("m", "b", "y", 5, F{"v": fv(2.5)}),
 		pt("m", "b", "x", 5, F{"v": fv(2)}),
-		pt("m", "a", "x", 8, F{"v": iv(2)}),
+		pt("m", "a", "x", 9, F{"v": iv(2)}),
 		pt("m", "b", "x", 9, F{"v": fv(0.5)}),
-		pt("m", "a", "y", 8, F{"v": iv(3)}),
+		pt("m", "a", "y", 9, F{"v": iv(3)}),
 	},
 	// one field per point (flatten with dropOriginalFieldName is only defined then)
 	"single": {
